@@ -174,7 +174,6 @@ int fclose(FILE *fp) {
 /* ------------------------------------------------------------------ descriptors */
 static const char *fdkind(int fd) {
     struct stat st; static char b[24];
-    if (fd >= 0 && fd <= 2) { snprintf(b, sizeof b, "std%d", fd); return b; }
     if (fstat(fd, &st)) return "bad";
     return S_ISSOCK(st.st_mode) ? "sock" : S_ISFIFO(st.st_mode) ? "fifo" : S_ISCHR(st.st_mode) ? "chr" : S_ISREG(st.st_mode) ? "reg" : "other";
 }
@@ -191,9 +190,11 @@ int open64(const char *path, int flags, ...) {
     mode_t mode = 0; if (flags & (O_CREAT | O_TMPFILE)) { va_list ap; va_start(ap, flags); mode = va_arg(ap, mode_t); va_end(ap); }
     return open(path, flags, mode);
 }
+#define SHORT_COUNT 9999      /* plan "k:9999": not an error but a SHORT count (half of the bytes are really transferred) */
 ssize_t write(int fd, const void *buf, size_t n) {
     if (!TRACED) return syscall(SYS_write, fd, buf, n);
     long idx; int inj = decide("write", &idx); char a1[24], a2[32]; snprintf(a1, sizeof a1, "%s", fdkind(fd)); snprintf(a2, sizeof a2, "%zu", n);
+    if (inj == SHORT_COUNT) { depth++; ssize_t r = syscall(SYS_write, fd, buf, n / 2); int e = errno; depth--; logcall(idx, "write", a1, a2, r < 0 ? -1 : (long) r, r < 0 ? e : 0, NULL, 0, 1); errno = e; return r; }
     if (inj) { logcall(idx, "write", a1, a2, -1, inj, NULL, 0, 1); errno = inj; return -1; }
     depth++; ssize_t r = syscall(SYS_write, fd, buf, n); int e = errno; depth--;
     logcall(idx, "write", a1, a2, r < 0 ? -1 : (long) r, r < 0 ? e : 0, NULL, 0, 0); errno = e; return r;
@@ -226,6 +227,7 @@ ssize_t send(int fd, const void *buf, size_t n, int flags) {
     REAL(ssize_t, send, int, const void *, size_t, int);
     if (!TRACED) return real_send(fd, buf, n, flags);
     long idx; int inj = decide("send", &idx); char a1[24], a2[32]; snprintf(a1, sizeof a1, "%d", flags); snprintf(a2, sizeof a2, "%zu", n);
+    if (inj == SHORT_COUNT) { depth++; ssize_t r = real_send(fd, buf, n / 2, flags); int e = errno; depth--; logcall(idx, "send", a1, a2, r < 0 ? -1 : (long) r, r < 0 ? e : 0, NULL, 0, 1); errno = e; return r; }
     if (inj) { logcall(idx, "send", a1, a2, -1, inj, NULL, 0, 1); errno = inj; return -1; }
     depth++; ssize_t r = real_send(fd, buf, n, flags); int e = errno; depth--;
     logcall(idx, "send", a1, a2, r < 0 ? -1 : (long) r, r < 0 ? e : 0, NULL, 0, 0); errno = e; return r;
